@@ -21,52 +21,10 @@ func propC07(c *Ctx) {
 		return
 	}
 	c.extra["functions_reachable_from_dispatch_loop"] = len(vf.reachFns)
-	callsRun := callTo(func(f *ssa.Function) bool { return f == vf.run })
-	entry := vf.Run.Blocks[0].Instrs[0]
+	ruleRunReset(c, rr, vf)
 
-	// M: fields written by run-time code
-	M := map[string]bool{}
-	writers := map[string][]string{}
-	for _, fn := range vf.reachFns {
-		if r := fn.Signature.Recv(); r != nil && isNamed(r.Type(), modPath, "vmPool") {
-			continue // the pool configures child VMs (another VM's fields): C14's subject
-		}
-		d, _ := vf.storedVMFields(fn)
-		for k := range d {
-			M[k] = true
-			if len(writers[k]) < 4 {
-				writers[k] = append(writers[k], fnName(fn))
-			}
-		}
-	}
-	for _, f := range sortedKeys(M) {
-		_, ok := mustPassBefore(entry, vf.storesVMField(f), callsRun)
-		key := "VM." + f
-		c.Check(rr, key, l.Pos(vf.Run.Pos()), ok, "stored on every path of Run's prologue; run-time writers: "+strings.Join(writers[f], ", "),
-			"run-time code ("+strings.Join(writers[f], ", ")+") stores VM."+f+" but Run does not re-initialise it on every path before entering the loop: a later run on the same VM starts from what an earlier (possibly failed or aborted) run left")
-	}
-
-	// ---- frame0-reset -------------------------------------------------------------------
 	rf := c.Rule("frame0-reset", "every field of the call frame that run-time code reads is stored for frame 0 on every path of Run's prologue", 3)
-	if c.Anchor(rf, "type frame", vf.frameS != nil) {
-		read := map[string]bool{}
-		for _, fn := range vf.reachFns {
-			for i := 0; i < vf.frameS.NumFields(); i++ {
-				for _, acc := range fieldAccesses([]*ssa.Function{fn}, modPath, "frame", i) {
-					if !acc.Write {
-						if u, ok := acc.Instr.(*ssa.UnOp); ok && u.Op == token.MUL {
-							read[vf.frameS.Field(i).Name()] = true
-						}
-					}
-				}
-			}
-		}
-		for _, f := range sortedKeys(read) {
-			_, ok := mustPassBefore(entry, storesStructField(l, modPath, "frame", f), callsRun)
-			c.Check(rf, "frame."+f, l.Pos(vf.Run.Pos()), ok, "stored by the prologue on every path",
-				"run-time code reads frame."+f+" but Run's prologue does not store it for frame 0 on every path: stale state of an earlier run (e.g. error handlers left by a run that overflowed inside try) is used")
-		}
-	}
+	ruleFrame0Reset(c, rf, vf)
 
 	// ---- clear ------------------------------------------------------------------------------
 	rc := c.Rule("clear", "Clear stores to every stack slot, the module cache and the globals and empties the child pool; SetBytecode stores the bytecode, the constants and resets the module cache (module indexes are per bytecode)", 2)
@@ -206,4 +164,62 @@ func hasFreshCompiledFunction(fn *ssa.Function) bool {
 		}
 	})
 	return found
+}
+
+// ruleRunReset: fields written by run-time code are re-initialised by Run's prologue.
+func ruleRunReset(c *Ctx, rr string, vf *vmFacts) {
+	l := c.L
+	callsRun := callTo(func(f *ssa.Function) bool { return f == vf.run })
+	entry := vf.Run.Blocks[0].Instrs[0]
+
+	// M: fields written by run-time code
+	M := map[string]bool{}
+	writers := map[string][]string{}
+	for _, fn := range vf.reachFns {
+		if r := fn.Signature.Recv(); r != nil && isNamed(r.Type(), modPath, "vmPool") {
+			continue // the pool configures child VMs (another VM's fields): C14's subject
+		}
+		d, _ := vf.storedVMFields(fn)
+		for k := range d {
+			M[k] = true
+			if len(writers[k]) < 4 {
+				writers[k] = append(writers[k], fnName(fn))
+			}
+		}
+	}
+	for _, f := range sortedKeys(M) {
+		_, ok := mustPassBefore(entry, vf.storesVMField(f), callsRun)
+		key := "VM." + f
+		c.Check(rr, key, l.Pos(vf.Run.Pos()), ok, "stored on every path of Run's prologue; run-time writers: "+strings.Join(writers[f], ", "),
+			"run-time code ("+strings.Join(writers[f], ", ")+") stores VM."+f+" but Run does not re-initialise it on every path before entering the loop: a later run on the same VM starts from what an earlier (possibly failed or aborted) run left")
+	}
+
+}
+
+// ruleFrame0Reset: frame fields read by run-time code are stored for frame 0 by the prologue.
+func ruleFrame0Reset(c *Ctx, rf string, vf *vmFacts) {
+	l := c.L
+	callsRun := callTo(func(f *ssa.Function) bool { return f == vf.run })
+	entry := vf.Run.Blocks[0].Instrs[0]
+	// ---- frame0-reset -------------------------------------------------------------------
+	if c.Anchor(rf, "type frame", vf.frameS != nil) {
+		read := map[string]bool{}
+		for _, fn := range vf.reachFns {
+			for i := 0; i < vf.frameS.NumFields(); i++ {
+				for _, acc := range fieldAccesses([]*ssa.Function{fn}, modPath, "frame", i) {
+					if !acc.Write {
+						if u, ok := acc.Instr.(*ssa.UnOp); ok && u.Op == token.MUL {
+							read[vf.frameS.Field(i).Name()] = true
+						}
+					}
+				}
+			}
+		}
+		for _, f := range sortedKeys(read) {
+			_, ok := mustPassBefore(entry, storesStructField(l, modPath, "frame", f), callsRun)
+			c.Check(rf, "frame."+f, l.Pos(vf.Run.Pos()), ok, "stored by the prologue on every path",
+				"run-time code reads frame."+f+" but Run's prologue does not store it for frame 0 on every path: stale state of an earlier run (e.g. error handlers left by a run that overflowed inside try) is used")
+		}
+	}
+
 }
